@@ -535,3 +535,142 @@ def run_c07_policy_part(chk, theorems_ok):
 
 def replay(path):
     return replay_policy(path)
+
+
+# ------------------------------------------------------------------------------------------------
+# C07: interleaved policy calls on one breaker (drivers/interleave_driver.py, coq InterleaveCorr.v)
+# ------------------------------------------------------------------------------------------------
+def gen_interleaving(rng):
+    import breaker_common as bc
+    rto = rng.choice([1, 2, 3, 5])
+    brk = {"thr": rng.choice([1, 1, 2]), "win": rng.choice([8, 64]), "rto": rto,
+           "trip_on": rng.choice([None, ["TRANSIENT", "SERVER_ERROR"], ["TRANSIENT"]]), "cthr": {}}
+    n = rng.randint(2, 5)
+    calls = []
+    for j in range(n):
+        retry = rng.random() < 0.6
+        ma = rng.choice([1, 1, 2]) if retry else 1
+        fail_bias = 0.8 if j < 2 else 0.5        # the first calls tend to open the circuit
+        ops = [(["R", rng.choice(["TRANSIENT", "TRANSIENT", "SERVER_ERROR", "PERMANENT"])] if rng.random() < fail_bias else ["V"])
+               for _ in range(ma)]
+        calls.append({"retry": retry, "max_attempts": ma, "mode": rng.choice(["call", "execute"]), "ops": ops})
+    sched = []
+    for _ in range(rng.randint(n, 4 * n + 2)):
+        sched.append([rng.randrange(n), rng.choice([0, 0, 0, 1, max(0, rto - 1), rto, rto + 1]), "cancel" if rng.random() < 0.08 else "go"])
+    return {"breaker": brk, "t0": rng.choice([0, 7, 1000]), "calls": calls, "schedule": sched, "_bc": None}
+
+
+def g_icase(sc, ob):
+    import breaker_common as bc
+    rows = []
+    for e in ob["log"]:
+        if e[0] == "A":
+            _, i, t, allowed, dstate, ev, after = e
+            op = G.con("HAdmit", f"{int(i)}%nat", G.z(t))
+            rows.append(G.rec(io_op=op, io_allowed=f"(Some {G.b(allowed)})", io_event=G.opt(bc.EVN.get(ev) if ev else None),
+                              io_state=after[0], io_probe=G.b(after[1])))
+        else:
+            _, i, kind, klass, t, ev, after = e
+            k = {"succ": "SSucc", "cancel": "SCancel"}.get(kind) or G.con("SFail", klass)
+            op = G.con("HSettle", f"{int(i)}%nat", k, G.z(t))
+            rows.append(G.rec(io_op=op, io_allowed="None", io_event=G.opt(bc.EVN.get(ev) if ev else None),
+                              io_state=after[0], io_probe=G.b(after[1])))
+    return G.rec(ic_cfg=bc.g_cfg(sc["breaker"]), ic_hist="[" + "; ".join(rows) + "]")
+
+
+def oracle_interleaving(sc, ob, in_scope):
+    """C07 over an interleaved history: at most one admitted half-open probe outstanding, every other caller rejected while it
+    is; every admitted call settles exactly once, a rejected call never (C08/C09, needed for the former to mean anything)"""
+    out = {}          # call -> state it was admitted in
+    settled = {}
+    for e in ob["log"]:
+        if e[0] == "A":
+            _, i, t, allowed, dstate, ev, after = e
+            probes = [j for j, s in out.items() if s == "HALF_OPEN"]
+            if in_scope and probes and after[0] == "HALF_OPEN" and allowed:
+                return f"call {i} admitted at t={t} while call {probes[0]} is the outstanding half-open probe"
+            if i in out or i in settled:
+                return f"call {i} asked for admission twice"
+            if allowed:
+                out[i] = dstate
+        else:
+            _, i, kind, klass, t, ev, after = e
+            if i not in out:
+                return f"call {i} reported {kind} to the breaker without being admitted (or twice)"
+            settled[i] = kind
+            del out[i]
+    if out:
+        return f"calls {sorted(out)} were admitted and never told the breaker that they are over"
+    for i, fin in enumerate(ob["calls"]):
+        if fin[0] in ("unfinished", "other", "return?", "driver_error"):
+            return f"call {i} ended with {fin}"
+        if fin[0] == "rejected" and i in settled:
+            return f"call {i} was rejected and still reported to the breaker"
+        if fin[0] == "value" and settled.get(i) != "succ":
+            return f"call {i} returned its value but the breaker was told {settled.get(i)}"
+        if fin[0] == "cancelled" and settled.get(i, "cancel") != "cancel":
+            return f"call {i} was cancelled but the breaker was told {settled.get(i)}"
+    return None
+
+
+def run_c07_interleave_part(chk, theorems_ok):
+    n = 400 if chk.tier == "quick" else 8000
+    scs = [gen_interleaving(chk.rng) for _ in range(n)]
+    for s in scs:
+        s.pop("_bc", None)
+    obs = common.run_driver("interleave_driver", scs, jobs=8)
+    drv = [o["calls"][0] for o in obs if o["calls"] and o["calls"][0][0] == "driver_error"]
+    if drv:
+        raise common.DriverError("interleave_driver failed: " + str(drv[0][1])[-1500:])
+    failing, out_of_scope, errors = [], [], []
+    if theorems_ok:
+        lits = [g_icase(s, o) for s, o in zip(scs, obs)]
+        failing, errors = common.coq_failing(chk.workdir, "ileave", "Base Breaker Corr Policy PolicyInterleave InterleaveCorr", "icase",
+                                             "icase_ok", lits, shard=400)
+        out_of_scope, e2 = common.coq_failing(chk.workdir, "iscope", "Base Breaker Corr Policy PolicyInterleave InterleaveCorr", "icase",
+                                              "icase_in_scope", lits, shard=400)
+        errors += e2
+    oos = set(out_of_scope)
+    bad = [(i, m) for i, (s, o) in enumerate(zip(scs, obs)) for m in [oracle_interleaving(s, o, i not in oos)] if m]
+    overlapped = sum(1 for o in obs if any(e[0] == "A" and e[3] for e in o["log"]) and _overlap(o["log"]))
+    probes = sum(1 for o in obs for e in o["log"] if e[0] == "A" and e[3] and e[4] == "HALF_OPEN")
+    chk.coverage["interleavings"] = {
+        "scenarios": len(scs), "with_overlapping_admitted_calls": overlapped, "probes_admitted": probes,
+        "rejected_admissions": sum(1 for o in obs for e in o["log"] if e[0] == "A" and not e[3]),
+        "outside_theorem_hypothesis_stale_settle": len(oos), "compared_in_coq": 0 if errors else len(scs),
+        "sample": {"scenario": scs[0], "observed": obs[0]},
+    }
+    chk.coverage["evaluations"] = chk.coverage.get("evaluations", 0) + len(scs)
+    if errors:
+        chk.violation({"kind": "correspondence-error", "what": "interleaving cases file did not evaluate", "errors": errors[:3]}, no_input=True)
+    if bad:
+        i, msg = min(bad, key=lambda x: len(scs[x[0]]["schedule"]))
+        chk.violation({"kind": "oracle", "part": "interleavings", "what": msg, "scenario": scs[i], "observed": obs[i],
+                       "driver": "interleave_driver", "also_failing": len(bad)})
+    elif failing:
+        i = failing[0]
+        chk.violation({"kind": "correspondence", "part": "interleavings", "what": "InterleaveCorr.icase_ok: admission decisions, events or "
+                       "breaker state under interleaved policy calls differ from the Breaker.v model on the same history; the oracle "
+                       "(single probe, one settlement per admitted call) found no violated clause", "scenario": scs[i],
+                       "observed": obs[i], "driver": "interleave_driver", "disagreements": len(failing)}, no_input=True)
+
+
+def _overlap(log):
+    out = set()
+    for e in log:
+        if e[0] == "A" and e[3]:
+            if out:
+                return True
+            out.add(e[1])
+        elif e[0] == "S":
+            out.discard(e[1])
+    return False
+
+
+def replay_interleaving(path):
+    r = json.load(open(path))
+    o = common.run_driver("interleave_driver", [r["scenario"]])[0]
+    m = oracle_interleaving(r["scenario"], o, True)
+    print("observed:", json.dumps(o)[:1500])
+    print("oracle:", m or "holds")
+    return 1 if m else 0
